@@ -11,6 +11,7 @@ constraints and registrations.  This module
 """
 import gzip
 import io
+import contextlib
 import os
 import re
 import shutil
@@ -274,21 +275,49 @@ def classify_exc(e):
     return 'other:' + type(e).__name__
 
 
+@contextlib.contextmanager
+def counting_adds():
+    """ progress token for the watchdog: how many times the collection has been handed results
+    (by the collector thread, the final purge or an in-process task) - a run whose worker
+    processes are slow but whose results keep arriving is alive, however little CPU it gets """
+    n = [0]
+    try:
+        from searchkit import search as SR
+        cls = SR.SearchResultsCollection
+        orig = cls.add
+    except (ImportError, AttributeError):
+        yield lambda: None
+        return
+
+    def add(self, *a, **k):
+        n[0] += 1
+        return orig(self, *a, **k)
+    cls.add = add
+    try:
+        yield lambda: n[0]
+    finally:
+        cls.add = orig
+
+
 def run_searcher(built, fs, K):
     from vh import core
     limit = core.MULTI_LIMIT if len(fs.files) > 1 else core.SINGLE_LIMIT
     try:
-        with core.time_limit(limit):
+        with counting_adds() as adds, core.time_limit(limit, progress=adds):
             results = fs.run()
     except core.CaseTimeout:
         core.kill_children()
-        return {'err': f'hang(>{limit}s)'}
+        return {'err': f'hang(>{limit}s)', '_watchdog': core.WATCHDOG['last_verdict']}
     except Exception as e:  # pylint: disable=broad-except
         return {'err': classify_exc(e)}
+    ext = core.WATCHDOG['last_extensions']
     try:
-        return _observe_run(built, fs, results, K)
+        obs = _observe_run(built, fs, results, K)
     except Exception as e:  # pylint: disable=broad-except
         return {'err': 'accessor-raised:' + type(e).__name__}
+    if ext:
+        obs['_watchdog_extensions'] = ext
+    return obs
 
 
 def _observe_run(built, fs, results, K):
